@@ -511,7 +511,8 @@ fn eval_assignment(env: &Env, par_lines: &[Vec<LineMap>]) -> Eval {
                         let avail = cfg.width.saturating_sub(ref_width(cfg.ii)).min(cfg.width.saturating_sub(ref_width(cfg.si)));
                         allowed = (0..all.len() - 1).any(|k| {
                             let w = par[all[k]..all[k + 1]].trim_end_matches(' ');
-                            w.contains(' ') && ref_width(w) > avail
+                            // a reference word cut through a sequence (a space inside an OSC) cannot be measured: lenient
+                            w.contains(' ') && ref_visible(w).map(|v| v.width() > avail).unwrap_or(true)
                         });
                     }
                     ev.check("C01-no-trailing-space", allowed, &|| json!({"line_no": l.li, "line": lines[l.li].to_string(), "lines": lines_json(lines)}));
@@ -553,7 +554,15 @@ fn eval_assignment(env: &Env, par_lines: &[Vec<LineMap>]) -> Eval {
             let vis = viss[pi].as_ref().unwrap();
             let mut fb: Option<Vec<(usize, usize)>> = None;
             for l in pl {
-                let lw = ref_width(&lines[l.li]);
+                let lw = match ref_visible(&lines[l.li]) {
+                    Some(v) => v.width(),
+                    None => {
+                        // the output line contains a cut escape sequence: its width is not defined by the
+                        // statement's grammar (C13's business), not judged here
+                        ev.notes.push("C02-line-with-cut-sequence(not judged)");
+                        continue;
+                    }
+                };
                 if lw == cfg.width && cfg.width > 0 && pl.len() >= 2 {
                     ev.notes.push("C02-exact-fit-line");
                 }
